@@ -22,6 +22,23 @@ PROPS = {
         "assumptions": ["decoders in the model: the core binary format listed for C14; FormatStream iteration, archives, pairing URLs, bearer tokens and HTTP handlers are not yet in the model",
                         "partial: allocator abort behaviour and stack depth are runtime properties the model cannot exhibit"],
     },
+    "C04": {
+        "lean": ["SosModel.Props.C04"],
+        "runs": [{"crate": "haccount", "domain": "sync"}],
+        "classes": r"^c04-",
+        "trusted_base": [HASH_TB, LOG_TB, "one event log at a time (all log types run the same algorithm); a sync call is modelled sequentially (interleavings are C09); the in-process SyncClient calls server_helpers exactly as the HTTP handlers do"],
+        "assumptions": ["partial: the n-device/any-order statement is proved for the two building blocks (fast-forward, auto-merge of distinct events); its composition over arbitrary sync orders is validated by the generated histories only",
+                        "wall-clock timestamps (no clock hook yet): ties and skew are covered by the merge_patches stream, not by whole histories"],
+        "timeout": {"quick": 1500, "thorough": 7200},
+    },
+    "C05": {
+        "lean": ["SosModel.Props.C05"],
+        "runs": [{"crate": "haccount", "domain": "sync"}],
+        "classes": r"^c05-",
+        "trusted_base": [HASH_TB, "Vec::sort_by modelled as a stable insertion sort by time"],
+        "assumptions": ["consequences for decrypted folder content (last writer wins, deletes) go through the folder reducer (C02)"],
+        "timeout": {"quick": 1500, "thorough": 7200},
+    },
     "C06": {
         "lean": ["SosModel.Props.C06"],
         "runs": [{"crate": "hbackend", "domain": "log"}],
